@@ -177,6 +177,8 @@ class Interp:
         self.size_atom = None      # ring element standing for the mesh size n in value arithmetic
         self.on_setattr = None     # hook(obj, attr, value) -> value
         self.np_hooks = {}         # numpy function name -> python callable(args, kwargs)
+        self.cond_policy = None      # list of outcomes for opaque conditions (np.isclose ...), None: unsupported
+        self.cond_log = []
 
     # ------------------------------------------------------------------ entry points
     def call_function(self, func, args, kwargs=None, depth=0):
@@ -1039,6 +1041,20 @@ class Interp:
             raise AnalysisError("%s:%d call into unknown module %s" % (func.qualname, ln, name))
         if base in self.np_hooks:
             return self.np_hooks[base](args, kwargs)
+        if base in ("isclose", "allclose", "array_equal") and len(args) >= 2 and self.cond_policy is not None:
+            # tolerance comparison of two abstract values: true if they are the same value; otherwise
+            # an *opaque condition* -- true for some inputs, false for others.  The caller enumerates
+            # both outcomes (cond_policy) and every clause must hold on every path.
+            a, b = args[0], args[1]
+            try:
+                if self.dom.is_value(self.lift(a)) and self.dom.is_value(self.lift(b)) and hasattr(self.dom, "alg") and self.dom.alg.equal(self.lift(a), self.lift(b)):
+                    return True
+            except Exception:
+                pass
+            k = len(self.cond_log)
+            c = self.cond_policy[k] if k < len(self.cond_policy) else True
+            self.cond_log.append("%s:%d `%s` taken as %s" % (func.qualname, ln, unparse(node)[:60], c))
+            return c
         if base in ("all", "any") and len(args) == 1 and not kwargs and hasattr(d, "unknown_cond"):
             # reduction of a condition over an array of which the analysed value is one entry:
             # decided only when this entry forces it, otherwise an unknown condition (both branches)
